@@ -51,6 +51,11 @@ CHECKS = {
             "Same inputs as C08. For every accepted input fmt(fmt(x)) must equal fmt(x) byte for byte (and fmt(x) must parse). The known layout defect is only attributed when the tree predicate holds, the two outputs differ in whitespace only and the third pass is a fixed point.",
             "Formatter = ParseString + TemplateFile.Write.",
             "4.8", "tgen"),
+    "C10": ("fault_enumeration",
+            "exhaustive single-fault and fault-sequence enumeration on components compiled at check time, against the reference document",
+            "Components: 9 hand-written templates covering every library component and error source (children, css class, script template, once, JSONScript, Raw, Join, Flush, loops, switch, nested failing components, a two-line expression, a >4 KB document) plus the single-constructor and attribute programs of the C02 space. For 3 values of runtime.DefaultBufferSize (16, 64, 4096; one process each) x 2 valuations: the writer fails at every byte offset 0..len with a zero write and with a short write, every (string,error) expression returns an error (twice in a row), every nested failing component, a failing Flush, a context cancelled before start; after every few faults the same template and another one are rendered cleanly in the same process (same buffer pools). Oracle: nil error => exactly the full document; the full document is the same for all buffer sizes; any fault => non-nil error that wraps the cause (errors.Is), expression errors carry the template file name and a line inside the expression, the bytes received are a prefix of the document, faults not reached by control flow cause no error, and every later clean render is byte-identical to the reference.",
+            "templ.Error.Line is 1-based; documents longer than 600 bytes use every 7th offset plus all offsets next to buffer boundaries; cancellation is only demanded of generated components.",
+            "4.10", "tgen"),
     "C11": ("fault_enumeration",
             "exhaustive configuration x fault-point enumeration on the real handler",
             "Every component that writes up to 3/4 chunks of sizes {1,100,5000} and then fails or succeeds (directly or nested under templ.Join) x status {unset,200,201,404} x 3 content types x 5 error-handler shapes (unset, status+body, body only, nothing, own content type) x buffered/streamed, each followed by three further renders over the shared buffer pool. A recording ResponseWriter captures committed status, headers at commit time, number of WriteHeader calls and body. Buffered oracle: success = exact status/content type/full document; failure = no document byte, default 500 message or exactly what the error handler alone writes, handler receives the cause.",
